@@ -4,7 +4,7 @@ EXTENDS Client
 
 CONSTANTS T, Tries, BufCap, V4, XidOf, Urgent, Timed, CancelChecksIdentity, TimerPerIteration,
           MaxDgrams, DgramAttrs, MaxNow, AllowClose, AllowCtx, MaxTry,
-          MaxCalls, WFault, TimeoutCarriesOver, WriteErrKeepsEntry
+          MaxCalls, WFault, TimeoutCarriesOver, WriteErrKeepsEntry, AllowFire, FireRegisters
 
 \* values for the constants that a .cfg file cannot express (substituted with <-)
 XidAll7 == [c \in Callers |-> 7]
@@ -19,7 +19,7 @@ AttrsR == {[xid |-> 7, kind |-> "rej"]}
 Cfg == [T |-> T, tries |-> Tries, bufcap |-> BufCap, v4 |-> V4, xid |-> XidOf, urgent |-> Urgent, timed |-> Timed,
         cancelChecksIdentity |-> CancelChecksIdentity, timerPerIteration |-> TimerPerIteration,
         maxCalls |-> MaxCalls, wfault |-> WFault, timeoutCarriesOver |-> TimeoutCarriesOver,
-        writeErrKeepsEntry |-> WriteErrKeepsEntry]
+        writeErrKeepsEntry |-> WriteErrKeepsEntry, fireRegisters |-> FireRegisters]
 
 Init == InitWith(Cfg)
 EnvInject(xid, kind) == Len(dgs) < MaxDgrams /\ Inject([xid |-> xid, kind |-> kind])
@@ -27,6 +27,7 @@ EnvCtx(c) == AllowCtx /\ CtxCancel(c)
 EnvClose == AllowClose /\ CloseStart
 EnvTick == now < MaxNow /\ Tick
 Next == \/ \E c \in Callers : Start(c) \/ Again(c)
+        \/ AllowFire /\ \E c \in Callers : Fire(c) \/ FireFail(c)
         \/ Internal
         \/ EnvClose
         \/ \E a \in DgramAttrs : EnvInject(a.xid, a.kind)
